@@ -850,6 +850,18 @@ func (x *c10) closePairing() {
 					}
 				}
 			}
+			inlineAt := -1
+			if found == "" {
+				if row, ix, it := x.unsubInlineSearch(fi, p); row != "" {
+					switch row {
+					case "found":
+						found, idx = "yes", ix
+						inlineAt = p.LoopAt[it.li.Hdr]
+					case "notfound", "loop":
+						found = "no"
+					}
+				}
+			}
 			if found != "yes" {
 				if len(closes)+len(stores) > 0 {
 					ok, why = false, "a channel is closed or the list changed on a path where the argument was not found"
@@ -862,12 +874,12 @@ func (x *c10) closePairing() {
 				continue
 			}
 			cl := closes[0].Args[0]
-			if !(cl.Op == "load" && cl.Args[0].Op == "iaddr" && x.isSubsLoad(cl.Args[0].Args[0], recv) && cl.Args[0].Args[1].Key() == idx.Key()) {
+			if !(cl.Op == "load" && cl.Args[0].Op == "iaddr" && x.isSubsLoad(cl.Args[0].Args[0], recv) && ToPoly(cl.Args[0].Args[1]).Equal(ToPoly(idx))) {
 				ok, why = false, "the channel closed is not the list element at the index found: "+cl.String()
 			}
 			v := stores[0].Val
 			good := v.Op == "builtin" && v.Sym == "append" && len(v.Args) == 2 &&
-				v.Args[0].Op == "slice" && x.isSubsLoad(v.Args[0].Args[0], recv) && (v.Args[0].Args[1].Op == "none" || v.Args[0].Args[1].IsConst("0")) && v.Args[0].Args[2].Key() == idx.Key() &&
+				v.Args[0].Op == "slice" && x.isSubsLoad(v.Args[0].Args[0], recv) && (v.Args[0].Args[1].Op == "none" || v.Args[0].Args[1].IsConst("0")) && ToPoly(v.Args[0].Args[2]).Equal(ToPoly(idx)) &&
 				v.Args[1].Op == "slice" && x.isSubsLoad(v.Args[1].Args[0], recv) && ToPoly(v.Args[1].Args[1]).Equal(ToPoly(idx).Add(polyConst(1), 1)) && v.Args[1].Args[2].Op == "none"
 			if !good {
 				// equivalent: copy(subs[i:], subs[i+1:]) followed by subs = subs[:len(subs)-1]
@@ -906,6 +918,9 @@ func (x *c10) closePairing() {
 				if e := &p.Events[i]; e.Kind == "call" && e.Res != nil && e.Res.Key() == idx.Key() {
 					search = e
 				}
+			}
+			if search == nil && inlineAt >= 0 && inlineAt < len(p.Events) {
+				search = &p.Events[inlineAt] // the first event of the scan loop stands for the search
 			}
 			if search == nil {
 				ok, why = false, "cannot locate the search for the argument"
@@ -1053,6 +1068,9 @@ func (x *c10) errorTable() {
 		return t != nil && t.Op == "load" && t.Args[0].Op == "global" && t.Args[0].Obj.Name() == name
 	}
 	for _, p := range ps {
+		if p.End == EndLoopBack {
+			continue // an iteration of an inline scan; judged by close-pairing
+		}
 		if p.End != EndReturn || len(p.Rets) != 1 {
 			ok, why = false, "path does not return an error value"
 			continue
@@ -1069,6 +1087,13 @@ func (x *c10) errorTable() {
 				} else {
 					found = "no"
 				}
+			}
+		}
+		if found == "" && subNil != "==" {
+			if row, _, _ := x.unsubInlineSearch(fi, p); row == "found" {
+				found = "yes"
+			} else if row == "notfound" {
+				found = "no"
 			}
 		}
 		ret := p.Rets[0]
@@ -1331,8 +1356,32 @@ func (x *c10) lockPairing() {
 
 func (x *c10) subIndexRule() {
 	c := x.c
-	fi := c.fn("sub-index", "chans.(*PubSub).subIndex")
+	fi := c.P.Func("chans.(*PubSub).subIndex")
 	if fi == nil {
+		// no helper: Unsub must do the scan itself
+		if uf := c.fn("sub-index", "chans.(*PubSub).Unsub"); uf != nil {
+			okInline, found, back := false, 0, 0
+			for _, p := range x.paths[uf] {
+				row, _, it := x.unsubInlineSearch(uf, p)
+				if it != nil {
+					okInline = true
+				}
+				switch row {
+				case "found":
+					found++
+				case "loop":
+					back++
+					// the scan must not continue past a match
+					for _, cd := range p.Conds {
+						r := cd.Rel()
+						if r.B != nil && r.Op == "==" && it.isElem(r.A) {
+							okInline = false
+						}
+					}
+				}
+			}
+			c.R.Decide(okInline && found > 0 && back > 0, "sub-index", uf.Name, "scan", c.pos(uf), "Unsub scans the whole list from the front itself and acts on the first match", "neither a subIndex helper nor an inline scan of the whole subscriber list in Unsub")
+		}
 		return
 	}
 	ps := x.paths[fi]
@@ -1388,4 +1437,40 @@ func (x *c10) subIndexRule() {
 		}
 	}
 	c.R.Decide(ok, "sub-index", fi.Name, "scan", c.pos(fi), "first i with subs[i] == sub, else -1", why)
+}
+
+// unsubInlineSearch: Unsub written with its own scan instead of the subIndex helper: one loop over the whole
+// subscriber list from the front. For a path it reports "found" (the path has compared the current element equal
+// to the argument; idx is the loop's index), "notfound" (the path left the loop at its end), "loop" (a back edge)
+// or "" (no such loop in the function).
+func (x *c10) unsubInlineSearch(fi *FuncInfo, p *Path) (row string, idx *Term, it *c14iter) {
+	ps := x.paths[fi]
+	recv, sub := paramOf(fi, 0), paramOf(fi, 1)
+	loops := findLoops(ps)
+	if len(loops) != 1 {
+		return "", nil, nil
+	}
+	it = c14IterOf(loops[0])
+	if it == nil || it.kind != "slice" || !x.isSubsLoad(it.over, recv) || !it.full {
+		return "", nil, nil
+	}
+	if _, entered := p.LoopAt[loops[0].Hdr]; !entered {
+		return "", nil, it
+	}
+	eq := ""
+	for _, cd := range p.Conds {
+		r := cd.Rel()
+		if r.B != nil && (r.Op == "==" || r.Op == "!=") && ((it.isElem(r.A) && r.B.Key() == sub.Key()) || (it.isElem(r.B) && r.A.Key() == sub.Key())) {
+			eq = r.Op
+		}
+	}
+	switch {
+	case p.End == EndLoopBack:
+		return "loop", nil, it
+	case eq == "==":
+		return "found", it.idx, it
+	case eq == "":
+		return "notfound", nil, it
+	}
+	return "", nil, it
 }
